@@ -454,6 +454,7 @@ func ownProgram(g *caseGen, self refevm.Address, selfNonce uint64) []byte {
 	switch {
 	case kind == 12: // unbounded self-recursion: reaches the 1024 depth limit when gas allows
 		g.tag("own:recurse")
+		g.recursers = append(g.recursers, self)
 		p.a.Op(pg.PUSH0, pg.TLOAD).Push(1).Op(pg.ADD, pg.DUP1, pg.PUSH0, pg.TSTORE) // depth counter in transient slot 0
 		p.save()
 		op := pick(rng, byte(pg.CALL), pg.CALL, pg.DELEGATECALL, pg.CALLCODE, pg.STATICCALL)
